@@ -33,8 +33,8 @@ def seed_table():
         if any("TIE BROKEN [proof]" in l or "TIE BROKEN [translator]" in l or "TIE BROKEN [audit]" in l for l in lines): how.append("proof/translator")
         if any("TIE BROKEN [correspondence]" in l for l in lines): how.append("correspondence")
         if c.get("detected_with_failing_input"): how.append("failing input (property mode)")
-        title = (m.get("title") or "")[:110]
-        needs = (m.get("needs_to_manifest") or "")[:160]
+        title = (m.get("title") or "")[:110].replace("|", "/")
+        needs = (m.get("needs_to_manifest") or "")[:160].replace("|", "/")
         rows.append(f"| `{name}` | {m.get('property', c.get('property',''))} | {title} — needs: {needs} | {'yes' if c.get('valid_seed') else 'NO'} | "
                     f"{'caught' if c.get('detected') else 'MISSED'} | {', '.join(how) or '-'} |".replace("\n", " "))
     return "\n".join(rows)
